@@ -2,7 +2,9 @@ package characteristic
 
 import (
 	"fmt"
+	"math"
 	"net"
+	"reflect"
 
 	"github.com/xiam/to"
 )
@@ -115,11 +117,16 @@ func (c *Characteristic) getValue(conn net.Conn) interface{} {
 
 // Sets the value of the characteristic
 // The implementation makes sure that the type of the value stays the same
-// E.g. Type of characteristic value int, calling updateValue("10.5") sets the value to int(10)
+// E.g. Type of characteristic value int, calling updateValue("10") sets the value to int(10)
+//
+// Values which cannot be represented in the format of the characteristic (see convert) are ignored.
 //
 // When permissions are write only and checkPerms is true, this methods does not set the Value field.
 func (c *Characteristic) updateValue(value interface{}, conn net.Conn, checkPerms bool) {
-	value = c.convert(value)
+	value, ok := c.convert(value)
+	if !ok {
+		return
+	}
 
 	// Value must be within min and max
 	switch c.Format {
@@ -129,7 +136,9 @@ func (c *Characteristic) updateValue(value interface{}, conn net.Conn, checkPerm
 		value = c.clampInt(value.(int))
 	}
 
-	if c.Value == value && !c.updateOnSameValue {
+	// reflect.DeepEqual instead of == because values of characteristics with
+	// an unknown format are not converted and may not be comparable (slices, maps)
+	if reflect.DeepEqual(c.Value, value) && !c.updateOnSameValue {
 		return
 	}
 
@@ -186,25 +195,97 @@ func (c *Characteristic) clampInt(value int) interface{} {
 	return value
 }
 
-func (c *Characteristic) convert(v interface{}) interface{} {
+// convert returns v as the type which is used to store values of the characteristic's format
+//   - float64 for float
+//   - int for uint8, uint16, uint32, uint64 and int32 (limited to the range of the format)
+//   - bool for bool
+//   - string for string, tlv8 and data
+//
+// The second return value is false when v cannot be represented in the format: nil, slices, maps
+// and other non-scalar values for string, tlv8 and data; NaN and infinity for float.
+func (c *Characteristic) convert(v interface{}) (interface{}, bool) {
 	switch c.Format {
 	case FormatFloat:
-		return to.Float64(v)
+		f := to.Float64(v)
+		if math.IsNaN(f) || math.IsInf(f, 0) {
+			return nil, false
+		}
+		return f, true
 	case FormatUInt8:
-		return int(to.Uint64(v))
+		return toInt(v, 0, math.MaxUint8), true
 	case FormatUInt16:
-		return int(to.Uint64(v))
+		return toInt(v, 0, math.MaxUint16), true
 	case FormatUInt32:
-		return int(to.Uint64(v))
+		return toInt(v, 0, math.MaxUint32), true
 	case FormatInt32:
-		return int(to.Uint64(v))
+		return toInt(v, math.MinInt32, math.MaxInt32), true
 	case FormatUInt64:
-		return int(to.Uint64(v))
+		return toInt(v, 0, math.MaxInt64), true
 	case FormatBool:
-		return to.Bool(v)
+		return to.Bool(v), true
+	case FormatString, FormatTLV8, FormatData:
+		switch v.(type) {
+		case string:
+			return v, true
+		case bool, int, int8, int16, int32, int64, uint, uint8, uint16, uint32, uint64, float32, float64:
+			return to.String(v), true
+		default:
+			return nil, false
+		}
 	default:
-		return v
+		return v, true
 	}
+}
+
+// toInt converts v to an int which is not less than min and not greater than max.
+func toInt(v interface{}, min, max int64) int {
+	var i int64
+	switch t := v.(type) {
+	case uint:
+		i = uint64ToInt64(uint64(t))
+	case uint64:
+		i = uint64ToInt64(t)
+	case float32:
+		i = float64ToInt64(float64(t))
+	case float64:
+		i = float64ToInt64(t)
+	default:
+		i = to.Int64(v)
+	}
+
+	// values are stored as int, which may be smaller than the format (uint32 on 32-bit platforms)
+	const maxInt = int64(^uint(0) >> 1)
+	if max > maxInt {
+		max = maxInt
+	}
+
+	if i < min {
+		i = min
+	} else if i > max {
+		i = max
+	}
+
+	return int(i)
+}
+
+func uint64ToInt64(v uint64) int64 {
+	if v > math.MaxInt64 {
+		return math.MaxInt64
+	}
+	return int64(v)
+}
+
+// float64ToInt64 drops the fraction of v and limits the result to the range of int64.
+func float64ToInt64(v float64) int64 {
+	switch {
+	case v != v: // NaN
+		return 0
+	case v >= math.MaxInt64:
+		return math.MaxInt64
+	case v <= math.MinInt64:
+		return math.MinInt64
+	}
+	return int64(v)
 }
 
 // readPerm returns true when perms include read permission
